@@ -95,8 +95,9 @@ fn en(e: impl Into<redb::Error>) -> J {
     json!({"err": err_name(&e)})
 }
 
-fn probe(image: Vec<u8>, cfg: &Config) -> J {
+fn probe(image: Vec<u8>, cfg: &Config, full: bool) -> J {
     let cx = cfg.ctx();
+    let copy = if full { Some(image.clone()) } else { None };
     let store = Store::from_bytes(image);
     catch_unwind(AssertUnwindSafe(|| {
         let mut db = match builder(cfg).create_with_backend(store.backend()) {
@@ -120,6 +121,33 @@ fn probe(image: Vec<u8>, cfg: &Config) -> J {
             let obs2 = observe(&db, &cx).unwrap_or(json!({"error": 1}));
             out["same2"] = json!(obs2 == out["obs"]);
         }
+        if let Some(copy) = &copy
+            && out["integ"].get("ok").is_some()
+        {
+            // the alteration lies in the system tree (or the header): every persistent savepoint the certified database
+            // lists is restored on a copy of the altered image
+            let ids: Vec<u64> = out["obs"]["psp"].as_array().map(|a| a.iter().filter_map(|x| x.as_u64()).take(4).collect()).unwrap_or_default();
+            let mut restored = vec![];
+            for id in ids {
+                let store2 = Store::from_bytes(copy.clone());
+                let r = catch_unwind(AssertUnwindSafe(|| -> Result<J, redb::Error> {
+                    let db2 = builder(cfg).create_with_backend(store2.backend())?;
+                    let mut w = db2.begin_write()?;
+                    let sp = w.get_persistent_savepoint(id)?;
+                    w.restore_savepoint(&sp)?;
+                    w.commit()?;
+                    observe(&db2, &cx)
+                }));
+                restored.push(match r {
+                    Ok(Ok(o)) => json!({"id": id, "obs": o}),
+                    Ok(Err(e)) => json!({"id": id, "obs": {"error": err_name(&e)}}),
+                    Err(_) => json!({"id": id, "obs": {"error": "panic"}}),
+                });
+            }
+            if !restored.is_empty() {
+                out["psp_restored"] = J::Array(restored);
+            }
+        }
         out
     }))
     .unwrap_or_else(|_| json!({"open": "panic"}))
@@ -133,6 +161,16 @@ fn worker(args: &Args) {
     let cfg = Config::from_json(&serde_json::from_str(&std::fs::read_to_string(args.str("cfg", "")).unwrap()).unwrap());
     let alts: Vec<Alt> = std::fs::read_to_string(args.str("alts", "")).unwrap().lines().map(|l| Alt::from_json(&serde_json::from_str(l).unwrap())).collect();
     let (from, to) = (args.u64("from", 0) as usize, args.u64("to", 0) as usize);
+    // byte ranges of the pages of the system tree (and the header): alterations there get the full probe
+    let sys: Vec<(usize, usize)> = serde_json::from_str::<Vec<(usize, usize)>>(&args.str("sys", "[]")).unwrap();
+    let touches = |a: &Alt| -> bool {
+        let spans: Vec<(usize, usize)> = match *a {
+            Alt::Bit { off, .. } | Alt::Byte { off, .. } | Alt::Xor { off, .. } => vec![(off, off + 1)],
+            Alt::Run { off, len, .. } => vec![(off, off + len)],
+            Alt::Swap { a, b, page } => vec![(a * page, (a + 1) * page), (b * page, (b + 1) * page)],
+        };
+        spans.iter().any(|(lo, hi)| sys.iter().any(|(s, e)| lo < e && s < hi))
+    };
     let out = std::io::stdout();
     for w in from..to.min(alts.len()) {
         let mut img = image.clone();
@@ -142,7 +180,7 @@ fn worker(args: &Args) {
         }
         writeln!(out.lock(), "{}", json!({"start": w})).unwrap();
         out.lock().flush().unwrap();
-        let o = probe(img, &cfg);
+        let o = probe(img, &cfg, touches(&alts[w]));
         writeln!(out.lock(), "{}", json!({"w": w, "out": o})).unwrap();
     }
     out.lock().flush().unwrap();
@@ -230,6 +268,31 @@ fn main() {
             events.extend(ex.step(&json!({"e": "compact"})));
             events.extend(ex.step(&json!({"e": "reopen"})));
         }
+        // a persistent savepoint of a state that differs from the final one (after the trim: compaction refuses to run while
+        // one exists): the system tree of the image holds the savepoint table
+        let with_savepoint = match &replay {
+            Some(r) => r["savepoint_epilogue"].as_bool().unwrap_or(false),
+            None => h % 2 == 1,
+        };
+        if with_savepoint {
+            for step in [
+                json!({"e": "bw"}),
+                json!({"e": "spp"}),
+                json!({"e": "open", "n": "zs", "kind": "t", "kt": "u64", "vt": "u64"}),
+                json!({"e": "ins", "n": "zs", "k": 1, "v": 1}),
+                json!({"e": "ins", "n": "zs", "k": 2, "v": 2}),
+                json!({"e": "close", "n": "zs"}),
+                json!({"e": "commit"}),
+                json!({"e": "bw"}),
+                json!({"e": "open", "n": "zs", "kind": "t", "kt": "u64", "vt": "u64"}),
+                json!({"e": "ins", "n": "zs", "k": 3, "v": 3}),
+                json!({"e": "close", "n": "zs"}),
+                json!({"e": "commit"}),
+                json!({"e": "reopen"}),
+            ] {
+                events.extend(ex.step(&step));
+            }
+        }
         ex.teardown();
         let image = ex.store.bytes();
         let p = cfg.page_size;
@@ -273,6 +336,23 @@ fn main() {
         std::fs::write(&f_image, &image).unwrap();
         std::fs::write(&f_alts, alts.iter().map(|a| a.to_json().to_string()).collect::<Vec<_>>().join("\n")).unwrap();
         std::fs::write(&f_cfg, cfg.to_json().to_string()).unwrap();
+        // the pages of the system tree of the image (independent decoder), and the header
+        let mut sys: Vec<(usize, usize)> = vec![(0, 320)];
+        if let Ok(dec) = redb_decoder::decode(&image, &redb_decoder::Options { page_size: 0 }) {
+            let l = &dec["layout"];
+            let (hp, mp) = (l["region_header_pages"].as_u64().unwrap() as usize, l["region_max_data_pages"].as_u64().unwrap() as usize);
+            for t in dec["trees"].as_array().unwrap() {
+                if t["owner"] != "system" {
+                    continue;
+                }
+                for pg in t["pages"].as_array().unwrap() {
+                    let (r, i, o) = (pg["page"][0].as_u64().unwrap() as usize, pg["page"][1].as_u64().unwrap() as usize, pg["page"][2].as_u64().unwrap());
+                    let start = p + r * (hp + mp) * p + hp * p + i * (p << o);
+                    sys.push((start, start + (p << o)));
+                }
+            }
+        }
+        let sys_arg = serde_json::to_string(&sys).unwrap();
         let exe = std::env::current_exe().unwrap();
         let chunk = alts.len().div_ceil(threads.max(1)).max(1);
         let aborts = AtomicU64::new(0);
@@ -282,12 +362,12 @@ fn main() {
                 if lo >= hi {
                     continue;
                 }
-                let (exe, f_image, f_alts, f_cfg, found, applied, alts, aborts) = (&exe, &f_image, &f_alts, &f_cfg, &found, &applied, &alts, &aborts);
+                let (exe, f_image, f_alts, f_cfg, found, applied, alts, aborts, sys_arg) = (&exe, &f_image, &f_alts, &f_cfg, &found, &applied, &alts, &aborts, &sys_arg);
                 sc.spawn(move || {
                     let mut from = lo;
                     while from < hi {
                         let out = std::process::Command::new(exe)
-                            .args(["--worker", "--image", f_image, "--alts", f_alts, "--cfg", f_cfg, "--from", &from.to_string(), "--to", &hi.to_string()])
+                            .args(["--worker", "--image", f_image, "--alts", f_alts, "--cfg", f_cfg, "--from", &from.to_string(), "--to", &hi.to_string(), "--sys", sys_arg])
                             .stderr(std::process::Stdio::null())
                             .output()
                             .expect("HARNESS: cannot start a probe worker");
@@ -365,7 +445,7 @@ fn main() {
             k += 1;
         }
         if let Some(sw) = scripts.as_mut() {
-            sw.write(&json!({"history": h, "cfg": cfg.to_json(), "steps": script}));
+            sw.write(&json!({"history": h, "cfg": cfg.to_json(), "steps": script, "savepoint_epilogue": with_savepoint}));
         }
     }
     tw.finish();
